@@ -58,6 +58,7 @@ namespace pika::threads::detail {
       , queue_(queue)
     {
         PIKA_LOG(debug, "thread::thread({}), description({})", fmt::ptr(this), get_description());
+        PIKA_VERIF_POST("task.new", this, verif_word(), 0);
 
         PIKA_ASSERT(stacksize_enum_ != execution::thread_stacksize::current);
 
@@ -166,6 +167,7 @@ namespace pika::threads::detail {
         free_thread_exit_callbacks();
 
         current_state_.store(thread_state(init_data.initial_state, thread_restart_state::signaled));
+        PIKA_VERIF_POST("task.rebind", this, verif_word(), 0);
 
 #ifdef PIKA_HAVE_THREAD_DESCRIPTION
         description_ = init_data.description;
